@@ -395,7 +395,7 @@ def num_rule(ctx, P):
             # the test may reach the call through a status or a flag instead of dominating it: path by path over values
             from .. import symx
             ai_ = [i_ for i_, a_ in enumerate(f.args(c)) if f.canon(a_, subst=False) == x][0]
-            vl, vh, _n = symx.arg_bounds(f, P, c, ai_)
+            vl, vh, _n, _facts = symx.arg_bounds(f, P, c, ai_)
             lo, hi = lo or vl, hi or vh or not two
         ctx.check(r, lo and hi, key(f, "%s:%s#%d" % (what, x, n)), f.where(c), "the %s `%s` parsed from the file reaches %s without a %s range test" % (what, x, f.nodes[c].get("callee"), "lower" if not lo else "upper"))
     for s in paths.stores(f):
